@@ -1,0 +1,14 @@
+//go:build verif
+// +build verif
+
+// verif hook for property C12 (add-only, compiled only with -tags verif): the reload entry points of
+// ServerDataConf, so that a harness can reload the SAME object through the real loaders and HostTable.Update.
+package bfe_route
+
+// VerifC12New returns an empty ServerDataConf (what LoadServerDataConf starts from).
+func VerifC12New() *ServerDataConf { return newServerDataConf() }
+
+// VerifC12HostTableLoad runs hostTableLoad (host_rule.data, vip_rule.data, route_rule.data -> HostTable.Update).
+func VerifC12HostTableLoad(s *ServerDataConf, hostFile, vipFile, routeFile string) error {
+	return s.hostTableLoad(hostFile, vipFile, routeFile)
+}
